@@ -544,3 +544,26 @@ def r17(rr, repo):
     resize = [c for fn in (za.S_send, za.S_maybe) for c in q.calls_in(fn) if isinstance(c.func, ast.Attribute) and c.func.attr == 'setsockopt' and c.args and U(c.args[0]).endswith('SNDHWM')]
     rr.ob('the number of messages of one frame set is related to the bound of the PUB queue it is pushed into', bool(sized) or bool(resize), za.mod, hwm[0] if hwm else za.S_maybe,
           witness=f'PUB queue bound: {bound} = {za.consts_env.get(bound) if bound else None} messages; comparisons of len(topicmsgs) with it in send(): none; the queue is never re-sized', key='set-burst-vs-pub-queue')
+
+
+@rule('C03.R18', "a filter is handed what its receiver got: MQ.recv answers with an empty set only for a filter without sources, with None only when the receiver timed out, and otherwise with the frames decoded "
+                 "from exactly what the receiver returned")
+def r18(rr, repo):
+    from .zmq import MQF
+    mod, fn = repo.find(f'{MQF}::MQ.recv')
+    rets = [r for r in walk_scope(fn) if isinstance(r, ast.Return)]
+    rr.floor('returns of MQ.recv', len(rets), 3, mod, fn)
+    for r in rets:
+        g = q.effective_guards(r, fn)
+        v = r.value
+        if isinstance(v, ast.Dict) and not v.keys:
+            ok = g == [('self.receiver is None', True)]
+            rr.ob('the empty set is returned only when there is no receiver (a filter without sources)', ok, mod, r, witness=str(g)[:120], key='recv-empty-only-without-sources')
+        elif v is None or (isinstance(v, ast.Constant) and v.value is None):
+            ok = any(p and 'self.receiver.recv(' in t and t.rstrip().endswith('is None') for t, p in g) and ('self.receiver is None', False) in g
+            rr.ob('None is returned only when the receiver timed out', ok, mod, r, witness=str(g)[:160], key='recv-none-only-on-timeout')
+        else:
+            ok = ('self.receiver is None', False) in g and any((not p) and 'self.receiver.recv(' in t and t.rstrip().endswith('is None') for t, p in g)
+            dec = [c for c in q.calls_in(fn) if U(c.func).endswith('topicmsgs2frames')]
+            src = bool(dec) and isinstance(v, ast.Name) and any(isinstance(n, ast.NamedExpr) and U(n.target) == v.id and n.value is dec[0] for n in ast.walk(fn)) or (bool(dec) and v is dec[0])
+            rr.ob('the frames returned are the decoding of what the receiver delivered, on the path where it delivered something', ok and src, mod, r, witness=f'{U(v)[:40]} under {str(g)[:120]}', key='recv-frames-from-receiver')
